@@ -82,6 +82,11 @@ def run_candidates(c, cands):
     return [(inp, impl, model, spec) for _, inp, impl, model, spec in iter_joined(cs, mo)]
 
 
+# model operations per action (harness/cmd/c19: a macro expansion is Dup+GenSym; the front-end
+# constructs read names through the root and generate their temporaries)
+OPS_PER_ACTION = {"m": 2, "r": 5, "p": 6, "f": 2, "l": 2, "x": 6}
+
+
 def rle(act):
     """Run-length form of an action list, for reading long replays: 'm0 x270,g0,m0'."""
     out, prev, n = [], None, 0
@@ -106,7 +111,7 @@ def shrink(c, f):
     if m:
         k, pos = int(m.group(1)), 0
         for i, a in enumerate(acts):
-            pos += 2 if a[0] == "m" else 1
+            pos += OPS_PER_ACTION.get(a[0], 1)
             if pos > k:
                 acts = acts[:i + 1]
                 break
@@ -213,7 +218,8 @@ def main(argv):
             f["prologue"] = kv.get("pro", "")
             f["replay"] = ("fresh family (route api: NewZlispWithFuncs({}); route script: NewZlisp+StandardSetup+defmac mgs), prologue, then the actions: "
                            "M<i>:<name> = member i MakeSymbol, G<i>:<p> = GenSymbol / (gensym \"p\"), D<i>/C<i> = Duplicate/Clone, S = (str2sym), R = (quote name), "
-                           "g = (gensym), m = (mgs) macro; bin/check C19 --replay <this file>")
+                           "g = (gensym), m = (mgs) macro, r/p = infixExpand of a range loop (:= / =), x = run an infix range loop, f = (fn [fa] fa), l = (for ...), "
+                           "e<i>:<name> = text (list name ] with a syntax error; bin/check C19 --replay <this file>")
             c.violation(f)
     if not prop_fail:
         if corr_fail:
